@@ -119,9 +119,13 @@ impl LunarYear {
   pub fn get_months(&self) -> Vec<LunarMonth> {
     let mut l: Vec<LunarMonth> = Vec::new();
     let mut m: LunarMonth = LunarMonth::from_ym(self.year, 1);
-    while m.get_year() == self.year {
+    let n: usize = self.get_month_count();
+    for i in 0..n {
       l.push(m);
-      m = m.next(1);
+      // 最后一个月之后不再推移（9999年十二月的下个月超出范围）
+      if i + 1 < n {
+        m = m.next(1);
+      }
     }
     l
   }
